@@ -118,6 +118,19 @@ func run(r *eng.Runner) {
 		}
 	}
 
+	// loops whose `empty` branch is taken, nested in and around other loops: the Parentloop chain goes through the empty loop
+	r.Group("for-empty-chain", "prog.case", "a loop with nothing to iterate inside a loop: its empty branch sees the enclosing loop as forloop.Parentloop; a loop nested in that empty branch sees it as forloop.Parentloop.Parentloop")
+	for _, a := range seqs {
+		for _, b := range seqs {
+			for _, nothing := range []V{ListV(), NilV(), StrV(""), IntV(3)} {
+				deep := For{Key: "z", Over: v("b"), Body: []Node{T("("), O(v("forloop", "Counter")), T("."), O(v("forloop", "Parentloop", "Parentloop", "Counter")), O(v("forloop", "Parentloop", "Parentloop", "Last")), T(")")}}
+				inner := For{Key: "y", Over: v("none"), Body: []Node{T("never")}, HasEmpty: true, Empty: []Node{T("E"), O(v("forloop", "Parentloop", "Counter")), O(v("forloop", "Parentloop", "Revcounter0")), deep}}
+				outer := For{Key: "x", Over: v("a"), Body: []Node{T("<"), inner, T(">")}}
+				emit([]Node{outer}, map[string]V{"a": a, "b": b, "none": nothing}, "for-empty-chain", "for-empty-chain")
+			}
+		}
+	}
+
 	// ---- P6: if / elif / else ----
 	r.Group("if-chains", "prog.case", "if with 0..2 elif and optional else, conditions drawn from 14 atoms covering the truthiness table, alone and inside a loop")
 	atoms := []Expr{v("yes"), v("no"), v("zero"), v("five"), v("es"), v("s"), v("el"), v("l"), v("em"), v("m"), v("nilv"), v("missing"), Not{E: v("no")}, Bin{Op: "==", L: v("five"), R: lit(5)}, Bin{Op: ">", L: v("five"), R: lit(7)}, Bin{Op: "and", L: v("yes"), R: v("es")}, Bin{Op: "or", L: v("zero"), R: v("s")}}
